@@ -52,6 +52,10 @@ def run(prop: str, tier: str, seed: int) -> int:
     for m in agg["mism"]:
         if m["clause"] in wanted:
             rep.violation(m["clause"], {**m, "channel": "R", "family": "MC_NT"})
+    if prop == "C02":
+        # format dialects leave exactly their native types unconverted -- also on the FIRST call of a lazily compiled format mixin
+        from harness.checks import sys_props
+        sys_props.run_into(rep, "C02", tier, seed)
     # ---- channel V: random deeper schemas, judged by TLC against the same operators
     g = gen.Gen(seed, max_depth=4 if tier == "quick" else 5)
     ngroups = 400 if tier == "quick" else 6000
